@@ -48,7 +48,8 @@ Definition subclass (c d : ecls) : bool :=
   end.
 
 (** An expression node: [lbl] = identity of the Python object (shared objects carry the same
-    label), [name] = [.name] of symbols / value string of literals, [skey] = [str(expr)],
+    label), [name] = [.name] of symbols / value string of literals, [skey] = [str(expr)]
+    (written "" when it equals [name]),
     [kids] = the sub-expressions in the order in which the class' [map_*] method of
     [LokiWalkMapper] recurses into them:
       Scalar/Array -> [_symbol] (VariableSymbol or ArraySubscript);
@@ -62,7 +63,9 @@ Inductive expr := EN (lbl : Z) (cls : ecls) (name : string) (skey : string) (kid
 Definition elbl (e : expr) : Z := match e with EN l _ _ _ _ => l end.
 Definition ecl (e : expr) : ecls := match e with EN _ c _ _ _ => c end.
 Definition ename (e : expr) : string := match e with EN _ _ n _ _ => n end.
-Definition eskey (e : expr) : string := match e with EN _ _ _ s _ => s end.
+(** to keep the case files small the bridge writes [skey = ""] when [str(expr)] equals [name] *)
+Definition eff_skey (n s : string) : string := match s with EmptyString => n | _ => s end.
+Definition eskey (e : expr) : string := match e with EN _ _ n s _ => eff_skey n s end.
 Definition ekids (e : expr) : list expr := match e with EN _ _ _ _ k => k end.
 
 (** ** LokiWalkMapper / ExpressionRetriever *)
@@ -103,7 +106,7 @@ Definition qof (f : finder) (e : expr) : bool := fq f (ecl e).
 
 Definition memc (c : ecls) (l : list ecls) : bool := existsb (ecls_eqb c) l.
 (** recurse_query of the form [lambda e: not isinstance(e, blocked classes)] *)
-Definition rq_block (block : list ecls) (e : expr) : bool := negb (memc (ecl e) block).
+Definition rq_block (block : list ecls) (e : expr) : bool := negb (existsb (subclass (ecl e)) block).
 
 (** ** Equality and the [unique] reduction of ExpressionFinder.find_uniques *)
 
@@ -129,7 +132,7 @@ Fixpoint expr_eqb (a b : expr) {struct a} : bool :=
       else match ca with
            | CStringLit | CPymVar => ecls_eqb ca cb && String.eqb na nb
            | CTuple | CPyConst => false
-           | _ => subclass cb ca && String.eqb (canon sa) (canon sb)
+           | _ => subclass cb ca && String.eqb (canon (eff_skey na sa)) (canon (eff_skey nb sb))
            end
   end.
 
